@@ -383,6 +383,11 @@ func rangeEffects(fn *ssa.Function, header *ssa.BasicBlock, body map[*ssa.BasicB
 			if _, isDbg := r.(*ssa.DebugRef); isDbg {
 				continue
 			}
+			if c, ok := r.(*ssa.Call); ok {
+				if b, isB := c.Call.Value.(*ssa.Builtin); isB && b.Name() == "len" {
+					continue // the length of the accumulator does not depend on the iteration order
+				}
+			}
 			if ci, ok := r.(ssa.CallInstruction); ok && sortCall == nil {
 				n := calleeName(ci.Common())
 				if canonicalSort(n, ci.Common()) && len(ci.Common().Args) > 0 && ci.Common().Args[0] == ssa.Value(phi) {
